@@ -373,6 +373,9 @@ func c46Prop_(c c46Case, r *vp.Rec) error {
 	r.Class("method:" + c.Method)
 	r.Class("backend:" + c.Backend)
 	r.Classf("status:%s:%d", c.Method, status)
+	if status == 500 {
+		r.Class("copy-into-itself-recursed-1000-levels:" + c.Backend)
+	}
 	rel := "dst-invalid"
 	if dOK {
 		_, dExists := pre[D]
@@ -422,6 +425,10 @@ func c46Prop_(c c46Case, r *vp.Rec) error {
 		// The destination lies strictly inside the source: replacing the destination
 		// is the defined effect of the request, so that region is exempt.
 		excl = D
+		if old, ok := pre[D]; ok && post[D] != old {
+			// counted so that the exemption is visible in the evidence
+			r.Class("note:" + c.Method + "-into-own-subtree-replaced-existing-dst")
+		}
 	}
 	intactErr := c46Intact(pre, post, S, excl)
 	if c.Method == "COPY" {
@@ -511,7 +518,7 @@ func c46Spell(t *rapid.T, p string, label string, pct bool) string {
 
 func c46Gen(t *rapid.T) c46Case {
 	c := c46Case{Backend: "mem", Host: "example.com"}
-	if rapid.IntRange(0, 3).Draw(t, "backend") == 3 {
+	if rapid.IntRange(0, 5).Draw(t, "backend") == 5 {
 		c.Backend = "dir"
 	}
 	if rapid.IntRange(0, 3).Draw(t, "prefix") == 3 {
@@ -564,61 +571,72 @@ func c46Gen(t *rapid.T) c46Case {
 
 	// source: mostly an existing resource, preferably a collection
 	var S string
-	switch k := rapid.IntRange(0, 9).Draw(t, "srckind"); {
-	case k == 0:
-		S = path.Join(rapid.SampledFrom(dirs).Draw(t, "srcparent"), "q")
-	case k == 1:
-		S = "/"
-	case k <= 5 && len(dirs) > 1:
+	switch k := rapid.IntRange(0, 29).Draw(t, "srckind"); {
+	case k <= 16 && len(dirs) > 1:
 		S = rapid.SampledFrom(dirs[1:]).Draw(t, "srcdir")
-	case len(all) > 0:
+	case k <= 26 && len(all) > 0:
 		S = rapid.SampledFrom(all).Draw(t, "srcany")
+	case k <= 28:
+		S = path.Join(rapid.SampledFrom(dirs).Draw(t, "srcparent"), "q")
 	default:
-		S = "/a"
+		S = "/"
 	}
 	c.Src = c46Spell(t, S, "src", false)
 
 	// destination, by relation to the source
 	var D string
-	switch k := rapid.IntRange(0, 11).Draw(t, "dstrel"); {
-	case k <= 2: // the source itself
+	switch k := rapid.IntRange(0, 23).Draw(t, "dstrel"); {
+	case k <= 5: // a new name in an existing collection
+		D = path.Join(rapid.SampledFrom(dirs).Draw(t, "dstparent"), rapid.SampledFrom([]string{"a", "b", "c", "n"}).Draw(t, "dstname"))
+	case k <= 11 && len(all) > 0: // some existing resource
+		D = rapid.SampledFrom(all).Draw(t, "dstany")
+	case k <= 15: // the source itself
 		D = S
-	case k <= 4: // strictly inside the source
+	case k <= 19: // strictly inside the source
 		D = path.Join(S, rapid.SampledFrom(c46Names).Draw(t, "in1"))
 		if rapid.Bool().Draw(t, "in2") {
 			D = path.Join(D, rapid.SampledFrom(c46Names).Draw(t, "in2n"))
 		}
-	case k <= 6: // an ancestor of the source
+	case k <= 22: // an ancestor of the source
 		D = path.Dir(S)
 		if rapid.Bool().Draw(t, "up2") {
 			D = path.Dir(D)
 		}
-	case k <= 8 && len(all) > 0: // some existing resource
-		D = rapid.SampledFrom(all).Draw(t, "dstany")
-	case k <= 10: // a new name in an existing collection
-		D = path.Join(rapid.SampledFrom(dirs).Draw(t, "dstparent"), rapid.SampledFrom([]string{"a", "b", "c", "n"}).Draw(t, "dstname"))
 	default: // missing parent
 		D = path.Join(rapid.SampledFrom(dirs).Draw(t, "dstparent"), "q", "n")
 	}
+	rare := 47
+	if vp.Thorough() {
+		rare = 11
+	}
+	if c.Backend == "dir" && c.Method == "COPY" && D != S && c46Under(D, S) && rapid.IntRange(0, rare).Draw(t, "dirnested") > 0 {
+		// Dir recurses 1000 levels deep on a COPY into the source itself (about 1 s
+		// per case): keep that combination rare. This is about cost only.
+		c.Backend = "mem"
+	}
 	spelled := c46Spell(t, D, "dst", true)
 	c.HasDst = true
-	switch f := rapid.IntRange(0, 19).Draw(t, "dstform"); {
-	case f <= 12:
+	switch f := rapid.IntRange(0, 39).Draw(t, "dstform"); {
+	case f <= 27:
 		c.Dst = c.Prefix + spelled
-	case f <= 15:
+	case f <= 34:
 		c.Dst = "http://" + c.Host + c.Prefix + spelled
-	case f == 16:
+	case f == 35:
 		c.Dst = "http://other.example" + c.Prefix + spelled
-	case f == 17: // relative reference / missing prefix
+	case f <= 37: // relative reference / missing prefix
 		c.Dst = strings.TrimPrefix(spelled, "/")
-	case f == 18:
+	case f == 38:
 		c.Dst = rapid.SampledFrom([]string{"", "%zz", "http://" + c.Host, c.Prefix, "://"}).Draw(t, "dstjunk")
 	default:
 		c.HasDst = false
 	}
 
-	c.Overwrite = rapid.SampledFrom([]string{"", "T", "T", "F", "t", "x"}).Draw(t, "overwrite")
-	c.Depth = rapid.SampledFrom([]string{"", "", "", "infinity", "0", "1", "x"}).Draw(t, "depth")
+	c.Overwrite = rapid.SampledFrom([]string{"", "", "", "T", "T", "T", "T", "F", "F", "t", "x"}).Draw(t, "overwrite")
+	if c.Method == "COPY" {
+		c.Depth = rapid.SampledFrom([]string{"", "", "", "", "", "", "infinity", "infinity", "0", "0", "0", "1", "x"}).Draw(t, "depth")
+	} else {
+		c.Depth = rapid.SampledFrom([]string{"", "", "", "", "", "", "", "", "", "infinity", "infinity", "infinity", "0", "1", "x"}).Draw(t, "depth")
+	}
 
 	// locks
 	if rapid.IntRange(0, 2).Draw(t, "locked") == 2 {
@@ -631,7 +649,7 @@ func c46Gen(t *rapid.T) c46Case {
 				InIf: rapid.IntRange(0, 3).Draw(t, "lockinif") > 0,
 			})
 		}
-		c.IfMode = rapid.SampledFrom([]int{0, 1, 1, 1, 2, 3, 4}).Draw(t, "ifmode")
+		c.IfMode = rapid.SampledFrom([]int{0, 0, 1, 1, 1, 1, 1, 2, 2, 3, 4}).Draw(t, "ifmode")
 	}
 	return c
 }
